@@ -532,15 +532,15 @@ def minimise(script, plan, fails):
     return cur
 
 
-def first_oracle_failure(script, oracle):
-    """run (with fault enumeration) and return (result, finding) of the first run the oracle rejects"""
+def first_oracle_failure(script, oracle, key=None):
+    """run (with fault enumeration) and return (result, finding) of the first run the oracle rejects (with that key)"""
     try:
         res = run_scripts([script], tag="min")
     except RuntimeError:
         return None
     for s, r in res:
         f = oracle(s, r)
-        if f is not None:
+        if f is not None and (key is None or f[0] == key):
             return (r, f)
     return None
 
@@ -627,10 +627,9 @@ def run(chk):
             seen.add(key)
 
             def fails(cand, key=key):
-                got = first_oracle_failure(cand, c11_oracle)
-                return got is not None and got[1][0] == key
+                return first_oracle_failure(cand, c11_oracle, key) is not None
             small = minimise(s, r["plan"], fails)
-            got = first_oracle_failure(small, c11_oracle) or (r, f)
+            got = first_oracle_failure(small, c11_oracle, key) or (r, f)
             rr, ff = got
             sp = small.with_plan(rr["plan"])
             chk.violation(key, ff[1], {
